@@ -6,6 +6,7 @@ REGISTRY = {
     'C06': ('checks.callrun', 'check_c06'),
     'C07': ('checks.callrun', 'check_c07'),
     'C10': ('checks.c10', 'check_c10'),
+    'C11': ('checks.c11', 'check_c11'),
     'C12': ('checks.c12', 'check_c12'),
 }
 
